@@ -37,6 +37,8 @@ mod fmt_ipv4;
 mod fmt_ipv6;
 #[path = "wire/fmt_tcp.rs"]
 mod fmt_tcp;
+#[path = "wire/fmt_tcpopt.rs"]
+mod fmt_tcpopt;
 #[path = "wire/fmt_udp.rs"]
 mod fmt_udp;
 #[path = "wire/oracle.rs"]
@@ -44,7 +46,7 @@ mod oracle;
 
 use common::Format;
 
-const FORMATS: &[&Format] = &[&fmt_eth::FORMAT, &fmt_arp::FORMAT, &fmt_udp::FORMAT, &fmt_ipv4::FORMAT, &fmt_ipv6::FORMAT, &fmt_icmpv4::FORMAT, &fmt_icmpv6::FORMAT, &fmt_tcp::FORMAT];
+const FORMATS: &[&Format] = &[&fmt_eth::FORMAT, &fmt_arp::FORMAT, &fmt_udp::FORMAT, &fmt_ipv4::FORMAT, &fmt_ipv6::FORMAT, &fmt_icmpv4::FORMAT, &fmt_icmpv6::FORMAT, &fmt_tcp::FORMAT, &fmt_tcpopt::FORMAT];
 
 fn format(name: &str) -> &'static Format {
     FORMATS.iter().find(|f| f.name == name).unwrap_or_else(|| panic!("unknown format {}", name))
